@@ -67,8 +67,9 @@ def run_task(file_text, over, pool=None, data_name='data.csv', keep_dir=False, p
             return out
 
         def rec_ckpt(importances):
-            orig['ckpt'](importances)
+            r = orig['ckpt'](importances)      # wrappers are transparent: same arguments in, same value out
             obs['checkpoints'].append((len(obs['batches']), read_tsv('ranking_checkpoint_tmp.tsv')))
+            return r
 
         def rec_eim(**k):
             out = orig['eim'](**k)
@@ -281,7 +282,7 @@ def judge_quality_e2e(case):
     text, rows = quality_file(case)
     mb = case['minibatch_size']
     over = dict(minibatch_size=mb, subsampling=1, task=case['task'], rare_value_count_upper_bound=case['threshold'],
-                include_cardinality_in_feature_names='True', heuristic='MI-numba-randomized')
+                include_cardinality_in_feature_names=case.get('annotate', 'True'), heuristic='MI-numba-randomized')
     ok, obs = safe(run_task, text, over, via_cli=bool(case.get('via_cli')))
     if not ok:
         return [({'kind': 'exception', 'task': case['task']}, f'task raised {obs}')]
@@ -298,6 +299,10 @@ def judge_quality_e2e(case):
             return [({'kind': 'final_missing'}, 'pairwise_ranks.tsv missing')]
         for r in pw[1:]:
             for name in r[:2]:
+                if case.get('annotate', 'True') != 'True':
+                    if name not in card:
+                        fails.append(({'kind': 'annotation_format'}, f'unexpected feature name {name!r} (annotation switched off)'))
+                    continue
                 base, _, ann = name.partition('-(')
                 if base not in card or not ann.endswith(')'):
                     fails.append(({'kind': 'annotation_format'}, f'unexpected feature name {name!r}'))
